@@ -286,9 +286,10 @@ package keeper
 //@      cblog == (len(requestContext.ModuleName) != 0 ? cbResp(old(cblog), requestContextID, outs, len(outs) < c.BatchResponseThreshold) : old(cblog)))
 
 //@ func (Keeper).AddResponse
-//@ props C02 C08 C05 C12 C04 C07
+//@ props C02 C08 C05 C12 C04 C07 C20
 //@ modifies raw, bal, supply, cblog
-//@ maypanic
+//@ requires [C20] slash_and_refund_can_be_paid: requestFound(raw, requestID) ==> (!hasNeg(bindOf(raw, reqSvc(raw, requestID), reqProv(raw, requestID)).Deposit, slashBurn(raw, requestID)) &&
+//@      canPay(bal, depositAcc, slashBurn(raw, requestID)) && canPay(bankBurn(bal, depositAcc, slashBurn(raw, requestID)), requestAcc, reqFee(raw, requestID)))
 //@ preserves wf: WF(raw)
 //@ preserves [C03] deposits_in_custody: depInv(raw, bal)
 //@ requires [C04] binding_of_request_exists: requestFound(raw, requestID) ==> bindFound(raw, reqSvc(raw, requestID), reqProv(raw, requestID))
